@@ -39,6 +39,12 @@ CLAIMED = {
  "C09": dict(engine="wire", design="5 C09",
    technique="RFC 6352 request grammar as a TLA+ module over abstract XML (CardWire); same construction as C08; enumeration values exhaustively including unset and invalid ones",
    text="Every addressbook-query / multiget of the bounded universe (12k quick, 170k thorough: test at both levels x match type x negate x is-not-defined x param-filters x limit x selection, each enumeration incl. unset and an invalid token) in both directions, 4 lexical styles, several token concretisations; invalid enumeration values must be refused (client error or 4xx without backend call), never guessed; 27 kinds of documents outside the RFC must be refused."),
+ "C11": dict(engine="hier", design="5 C11",
+   technique="Scope and per-property accounting rules as TLA+ operators (Hier: Scope, PropNameOK, AllPropOK, PropOK; laws of Scope checked by TLC); TLC-enumerated PROPFIND cases executed on the real WebDAV / CalDAV / CardDAV handlers and ServePrincipal; answers parsed by a strict reader and judged by TLC",
+   text="Every (server, resource at every level incl. root, Depth absent/0/1/infinity, requested-name sequence with duplicates, unknown DAV: and foreign-namespace names, layout with 0-2 collections x 0-2 objects) case: the propname, allprop, prop, empty-body and no-form answers of one resource form one mini-trace whose availability set TLC infers from propname; every response exactly one href, scope exactly Hier.Scope, each distinct requested name exactly once (200 if available, empty 404 otherwise), allprop = all available names with 200, empty body = allprop, no form = 400, status 207, well-formed namespace-correct XML."),
+ "C12": dict(engine="hier", design="5 C12, App. B",
+   technique="routing relation as TLA+ operator Hier.RouteOK over (method, level below the prefix); TLC-enumerated requests under 0-3 segment prefixes executed on the real handlers with recording backends; real clients run the discovery chain over a real HTTP server; judged by TLC",
+   text="Every (CalDAV|CardDAV, prefix of 0-2 (thorough 3) segments, with/without trailing slash, path of level 0-5 on the current user's chain and on foreign chains, request trailing slash, method, PROPFIND Depth) request: the backend operation of that level must be invoked with the request path byte for byte, MKCOL only at collection level else 403 without create call, foreign principal / home-set PROPFIND exposes no href of the current user; the clients' discovery chain from the mount root and via the well-known redirect returns exactly the backend's principal, home set, collections and objects for every prefix x layout; three segment concretisations incl. segments equal to or anagrams of the prefix's and names needing escaping."),
  "C17": dict(engine="davtree", design="5 C17",
    technique="leak bit recorded on every event of the DavTree universes, required FALSE by the TLC judge",
    text="Every response (headers and body) of every (tree, request) pair, body fault and conditional request is scanned for the absolute path of the sandbox (and its symlink-resolved form); the specification's responses carry no such datum, so any occurrence is a reject."),
@@ -82,6 +88,9 @@ m = {
   {"name": "wire", "path": "spec/XmlOps.tla spec/CalWire.tla spec/CalWireGen.tla spec/CalWireJudge.tla spec/CardWire.tla spec/CardWireGen.tla spec/CardWireJudge.tla harness/xmlt harness/cmd/wirerec lib/checks_wire.py",
    "serves_properties": ["C08", "C09"],
    "kind_free_text": "protocol message grammar as TLA+ operators over abstract XML; TLC proves writer/reader agreement and enumerates the message universe; real client/server bound in both directions"},
+  {"name": "hier", "path": "spec/Hier.tla spec/HierGen.tla spec/HierJudge.tla harness/cmd/hierrec harness/backends lib/checks_hier.py",
+   "serves_properties": ["C11", "C12"],
+   "kind_free_text": "hierarchy / routing / scope / accounting rules as TLA+ operators; TLC enumerates requests; real handlers with recording backends and real clients; TLC judge"},
   {"name": "davtree", "path": "spec/DavTree.tla spec/DavTreeMC.tla spec/DavSim.tla spec/DavJudge.tla harness/cmd/davrec lib/checks_dav.py",
    "serves_properties": ["C01", "C02", "C03", "C04", "C17"],
    "kind_free_text": "TLA+ resource-tree specification; TLC model check + case generation; Go recorder on the real webdav.Handler; TLC trace-validation judge"},
